@@ -53,6 +53,9 @@ type effWrite struct {
 	instr  ssa.Instruction // the writing instruction (innermost)
 	via    []string        // call chain from the summarised function down to instr
 	what   string
+	// kind "callparam": the function calls its func-typed parameter `param`;
+	// cpArgs are the origins of the arguments it passes (in its own terms)
+	cpArgs [][]Loc
 }
 
 func (w effWrite) loc() Loc {
@@ -79,6 +82,16 @@ func (s *effSummary) sig() string {
 		k := w.loc().String()
 		if w.kind == "unknown" {
 			k = "unknown"
+		}
+		if w.kind == "callparam" {
+			k = "callparam:" + strconv.Itoa(w.param)
+			for _, ls := range w.cpArgs {
+				k += "("
+				for _, l := range ls {
+					k += l.String() + ","
+				}
+				k += ")"
+			}
 		}
 		if !seen[k] {
 			seen[k] = true
@@ -454,6 +467,18 @@ func (E *effectEngine) callEffects(fn *ssa.Function, in ssa.CallInstruction, add
 		// call of a function value (closure): defer func(){...}() etc.
 		if mc, ok := c.Value.(*ssa.MakeClosure); ok {
 			callee = mc.Fn.(*ssa.Function)
+		} else if prm, ok := c.Value.(*ssa.Parameter); ok {
+			// a call of a func-typed parameter: resolved at the callers
+			w := effWrite{kind: "callparam", param: paramIndex(prm), instr: in, what: "call of parameter " + prm.Name()}
+			for _, a := range c.Args {
+				var ls []Loc
+				if isRefType(a.Type()) {
+					ls = dedupLocs(E.originsOf(e.of(a), nil, 0))
+				}
+				w.cpArgs = append(w.cpArgs, ls)
+			}
+			s.writes = append(s.writes, w)
+			return
 		} else {
 			s.notes = append(s.notes, fmt.Sprintf("%s: dynamic call", P.instrPos(in)))
 			add(Loc{Kind: "unknown", Why: "dynamic call"}, in, nil, "dyncall")
@@ -475,6 +500,8 @@ func (E *effectEngine) callEffects(fn *ssa.Function, in ssa.CallInstruction, add
 				add(w.loc(), w.instr, via, w.what)
 			case "unknown":
 				add(w.loc(), w.instr, via, w.what)
+			case "callparam":
+				E.applyCallParam(fn, in, w, via, add, s)
 			}
 		}
 		return
@@ -501,6 +528,123 @@ func (E *effectEngine) callEffects(fn *ssa.Function, in ssa.CallInstruction, add
 			writeArg(c.Args[i], nil, "ext:"+shortFn(callee))
 		}
 	}
+}
+
+// applyCallParam: the callee of call `in` calls its func-typed parameter
+// w.param. When the argument is a known function (a bound method value, a
+// function literal or a named function) that function's summary is applied to
+// the arguments the callee passes; a func parameter of fn itself is passed on.
+func (E *effectEngine) applyCallParam(fn *ssa.Function, in ssa.CallInstruction, w effWrite, via []string, add func(Loc, ssa.Instruction, []string, string), s *effSummary) {
+	P := E.P
+	e := P.terms
+	c := in.Common()
+	unknown := func(why string) {
+		s.notes = append(s.notes, fmt.Sprintf("%s: %s", P.instrPos(in), why))
+		add(Loc{Kind: "unknown", Why: why}, w.instr, via, "dyncall")
+	}
+	if w.param >= len(c.Args) {
+		unknown("dynamic call")
+		return
+	}
+	// origins (at this call site) of the i-th argument the callee passes on
+	argOrigins := func(i int, sub []string) []Loc {
+		var out []Loc
+		if i >= len(w.cpArgs) {
+			return []Loc{{Kind: "unknown", Why: "dynamic call argument"}}
+		}
+		for _, l := range w.cpArgs[i] {
+			switch l.Kind {
+			case "param":
+				if l.Param < len(c.Args) {
+					out = append(out, E.originsOf(e.of(c.Args[l.Param]), append(append([]string{}, l.Path...), sub...), 0)...)
+				}
+			case "fresh":
+			default:
+				l.Path = append(append([]string{}, l.Path...), sub...)
+				out = append(out, l)
+			}
+		}
+		return out
+	}
+	fv := c.Args[w.param]
+	for {
+		if ct, ok := fv.(*ssa.ChangeType); ok {
+			fv = ct.X
+			continue
+		}
+		break
+	}
+	var g *ssa.Function
+	var recv ssa.Value
+	switch x := fv.(type) {
+	case *ssa.MakeClosure:
+		g = x.Fn.(*ssa.Function)
+		if m := boundMethodOf(g); m != nil {
+			g, recv = m, x.Bindings[0]
+		}
+	case *ssa.Function:
+		g = x
+	case *ssa.Parameter:
+		nw := effWrite{kind: "callparam", param: paramIndex(x), instr: w.instr, via: via, what: w.what}
+		for i := range w.cpArgs {
+			nw.cpArgs = append(nw.cpArgs, dedupLocs(argOrigins(i, nil)))
+		}
+		s.writes = append(s.writes, nw)
+		return
+	}
+	if g == nil {
+		unknown("dynamic call of an unresolved function value")
+		return
+	}
+	apply := func(ws []effWrite, off int) {
+		for _, gw := range ws {
+			gvia := append(append([]string{}, via...), shortFn(g))
+			gvia = append(gvia, gw.via...)
+			switch gw.kind {
+			case "param":
+				if recv != nil && gw.param == 0 {
+					for _, l := range E.originsOf(e.of(recv), gw.path, 0) {
+						add(l, gw.instr, gvia, gw.what)
+					}
+					continue
+				}
+				for _, l := range argOrigins(gw.param-off, gw.path) {
+					add(l, gw.instr, gvia, gw.what)
+				}
+			case "global", "unknown":
+				add(gw.loc(), gw.instr, gvia, gw.what)
+			case "callparam":
+				unknown("nested dynamic call")
+			}
+		}
+	}
+	if P.inPkg(g) {
+		off := 0
+		if recv != nil {
+			off = 1
+		}
+		apply(E.summary(g).writes, off)
+		return
+	}
+	if ct, ok := lookupContract(g); ok {
+		for _, i := range ct.writes {
+			j := i
+			if recv != nil {
+				if i == 0 {
+					for _, l := range E.originsOf(e.of(recv), nil, 0) {
+						add(l, w.instr, via, "ext:"+shortFn(g))
+					}
+					continue
+				}
+				j = i - 1
+			}
+			for _, l := range argOrigins(j, nil) {
+				add(l, w.instr, via, "ext:"+shortFn(g))
+			}
+		}
+		return
+	}
+	unknown("dynamic call of uncontracted " + shortFn(g))
 }
 
 // ---------------------------------------------------------------------------
